@@ -191,6 +191,14 @@ def run_obligations(sel, known, tier, prop):
         # counterexamples + native replay for genuine failures
         for hp, h, ob, role, region, r in failed_for_playback:
             rp = make_replay(s, hp, h, ob, role, region, r, prop)
+            nr = rp.get("native_replay")
+            if nr and nr.get("ran") and not nr.get("reproduced"):
+                # The verifier printed concrete inputs but the real code does not fail on any of
+                # them: contradictory evidence (a verifier artefact was observed once, DESIGN 6.3).
+                # Not reported as a violation of the code; the run is UNDECIDED (exit 2).
+                r["status"] = "UNDECIDED"
+                out["undecided"].append(f"{ob.id} ({h}): Kani reports a failed check but none of its counterexamples fails natively on the real code; see {rp['replay']}")
+                continue
             out["violations"].append(rp)
     return out
 
